@@ -2,7 +2,7 @@
    (what can_attach() asserts) and the three-block scenario that violates it when
    do_retrieve() re-queues a job on MORE without testing its offset.
    This file holds the statement and the scenario only; it compiles for every
-   source.  XF4Refuted.v proves the refutation for the regenerated booleans and
+   source.  notes/XF4Refuted_before_fix.v proves the refutation for the regenerated booleans and
    compiles only while the source lacks the test. *)
 From Coq Require Import List NArith Bool.
 From LBZ Require Import Gen.Consts SchedX.XState Gen.SchedXTab SchedX.XSet SchedX.XModel.
